@@ -5,7 +5,6 @@ UNITS = {
   # concurrent_queue<136-byte struct>: 1 item per page
   'cq1_2': dict(wrapper='w_cq.cpp', mode='lcs', unroll=1, cxxflags=['-DELEM=1'], lvalpath=True, immutable=IMM, threads=thr('vp_thr_q', 2)),
   'cq0_2': dict(wrapper='w_cq.cpp', mode='lcs', unroll=1, cxxflags=['-DELEM=0'], lvalpath=True, immutable=IMM, threads=thr('vp_thr_q', 2)),
-  'cq1_2d1': dict(wrapper='w_cq.cpp', mode='lcs', unroll=1, cxxflags=['-DELEM=1', '-DNDRAIN=1'], lvalpath=True, immutable=IMM, threads=thr('vp_thr_q', 2)),
   'cq1_3': dict(wrapper='w_cq.cpp', mode='lcs', unroll=1, cxxflags=['-DELEM=1'], lvalpath=True, immutable=IMM, threads=thr('vp_thr_q', 3)),
 }
 PUSH, POP = 1, 2
@@ -15,22 +14,39 @@ def sc(pre_push, pre_pop, a, b, c=None):
     if c is not None: d.update({'OC0': c[0], 'OC1': c[1]})
     return d
 N = 0
-Q2_QUICK = [
+def R(r, l): return [dict(x, ROUNDS=r) for x in l]
+ONE_OP = [
   sc(0, 0, (PUSH, N), (POP, N)),          # ticket taken but item not yet written; empty answer vs concurrent push
-  sc(0, 0, (PUSH, PUSH), (POP, POP)),     # producer || consumer, two items: per-producer order, real-time order
   sc(1, 0, (POP, N), (POP, N)),           # two consumers race for one item (CAS on head_counter): exactly one wins
-  sc(1, 0, (PUSH, N), (POP, POP)),
   sc(0, 0, (PUSH, N), (PUSH, N)),         # two producers: tickets/lane turns, drain order consistent with real time
   sc(8, 0, (PUSH, N), (POP, N)),          # push ticket 8 and pop ticket 0 meet in lane 0: page append vs pop finalizer (page mutex)
   sc(8, 8, (PUSH, N), (POP, N)),          # recycled lanes (head_page/tail_page were reset by earlier finalizers)
+  sc(9, 8, (PUSH, N), (POP, N)),          # one item left in a recycled lane
+]
+TWO_OP = [
+  sc(0, 0, (PUSH, PUSH), (POP, POP)),     # producer || consumer, two items: per-producer order, real-time order
+  sc(1, 0, (PUSH, N), (POP, POP)),
+  sc(8, 0, (PUSH, PUSH), (POP, POP)),
+  sc(0, 0, (PUSH, POP), (PUSH, POP)),
   sc(9, 1, (PUSH, POP), (POP, PUSH)),     # mixed threads on a queue whose tickets revisit lanes
 ]
+THREE_T = [
+  sc(0, 0, (PUSH, N), (PUSH, N), (POP, N)),
+  sc(1, 0, (PUSH, N), (POP, N), (POP, N)),
+  sc(8, 0, (PUSH, N), (POP, N), (POP, N)),
+]
+DESC = ('2-3 threads x <=2 operations (push / try_pop) after a sequential pre-state; complete linearizability check of the invocation/response '
+        'history against a FIFO queue, final drain, lane invariants, page accounting, cbmc memory safety (use after free of pages), lost hand-off (blocked-state oracle)')
 HARNESSES = [
-  dict(name='cq_big_2t', unit='cq1_2', harness='h_cq.c', defines={'NT': 2, 'ROUNDS': 3, 'ITEMS_PER_PAGE': 1},
-       scenarios=Q2_QUICK,
-       cbmc=CB, timeout=900, mem_gb=8,
-       desc='concurrent_queue<136-byte struct> (1 item/page: page allocated by every push, freed by every pop): 2 threads x <=2 operations (push / try_pop) after a sequential pre-state; complete linearizability check of the invocation/response history against a FIFO queue, final drain, lane invariants, page accounting, cbmc memory safety (use after free of pages), lost hand-off (blocked-state oracle)',
-       bounds={'threads': 2, 'ops_per_thread': '<=2', 'free_rounds': 3, 'forced_rounds': 2, 'spin_unroll': 1, 'pre_state': 'PRE_PUSH pushes then PRE_POP pops, sequential'}),
+  dict(name='cq_big_2t', unit='cq1_2', harness='h_cq.c', defines={'NT': 2, 'ITEMS_PER_PAGE': 1},
+       scenarios_quick=R(3, ONE_OP) + R(2, TWO_OP[:2]), scenarios_thorough=R(4, ONE_OP) + R(3, TWO_OP),
+       cbmc=CB, timeout=900, mem_gb=8, thorough_override={'timeout': 3600},
+       desc='concurrent_queue<136-byte struct> (1 item/page: page allocated by every push, freed by every pop): ' + DESC,
+       bounds={'threads': 2, 'ops_per_thread': '<=2', 'free_rounds': 'ROUNDS of the scenario (quick: 3 for 1 op/thread, 2 for 2 ops/thread; thorough 4 / 3)', 'forced_rounds': 2, 'spin_unroll': 1, 'pre_state': 'PRE_PUSH pushes then PRE_POP pops, sequential'}),
+  dict(name='cq_big_3t', unit='cq1_3', harness='h_cq.c', defines={'NT': 3, 'ITEMS_PER_PAGE': 1}, tiers=['thorough'],
+       scenarios=R(2, THREE_T), cbmc=CB, timeout=3600, mem_gb=8,
+       desc='concurrent_queue<136-byte struct>, 3 threads x 1 operation: ' + DESC,
+       bounds={'threads': 3, 'ops_per_thread': 1, 'free_rounds': 2, 'forced_rounds': 2, 'spin_unroll': 1}),
 ]
 OUTSIDE = []
 STUBS = []
